@@ -12,6 +12,9 @@ for l in open("/tmp/mut/benign.ndjson"):
     d = json.loads(l)
     seen[d["dir"]] = d
 for d, r in sorted(seen.items()):
+    if not (r.get("applies") and r.get("suite_passes")):
+        print("not confirmed here (left out):", d)
+        continue
     pid, b = d.rstrip("/").split("/")[-2:]
     o = os.path.join(OUT, "%s-%s" % (pid, b))
     shutil.rmtree(o, ignore_errors=True)
